@@ -431,6 +431,29 @@ class NdShape:
         raise Unsupported(attr)
 
 
+class _Stk:
+    """contract-level value: jnp.stack of a concrete list of leaves (leading axis = list index)"""
+    def __init__(self, items):
+        self.items = items
+
+    def pyvc_getattr(self, ex, attr):
+        if attr == "shape":
+            return (len(self.items),)
+        raise V.Unsupported(f"stacked attribute {attr}")
+
+
+def _stk_leaves(x):
+    if isinstance(x, _Stk):
+        return [x]
+    if isinstance(x, dict):
+        return [l for v in x.values() for l in _stk_leaves(v)]
+    if isinstance(x, (list, tuple)):
+        return [l for v in x for l in _stk_leaves(v)]
+    if isinstance(x, Rec):
+        return [l for v in x.f.values() for l in _stk_leaves(v)]
+    return []
+
+
 class RunS(Unit):
     """one partition: the step counter is clipped, the episode timings are sliced at that step, generations run in index order, each on the
     previous one's result, the supervisor's inputs are updated last, step + 1"""
@@ -441,6 +464,20 @@ class RunS(Unit):
     def configs(self):
         yield "no record", dict(record=False)
         yield "record", dict(record=True)
+        # uniform generations ({a, b}, {a, b}, {sup}): the generations are folded by jax.lax.scan over the stacked timings of each kind's slots
+        yield "uniform generations (scan)", dict(record=False, uniform=True)
+
+    def opts(self, cfg):
+        def scan(ex, f, init, xs, length):
+            tm = ex.lib.ns["jax.tree_util"].entries["tree_map"]
+            n = {len(v.items) for v in _stk_leaves(xs)}
+            if len(n) != 1:
+                raise V.Unsupported("scan over stacks of different lengths")
+            carry = init
+            for i in range(n.pop()):
+                carry, _ = ex.call(f, [carry, tm(ex, (lambda ii: lambda ex_, s: s.items[ii])(i), xs)], {})
+            return carry, None
+        return {"scan": scan}
 
     def run(self, ctx):
         ex, cfg = ctx.ex, ctx.cfg
@@ -449,6 +486,9 @@ class RunS(Unit):
         mk = lambda n: Rec("BaseNode", dict(name=n, rate=z3.Real(f"{n}.rate"), inputs={}, outputs={}), module=None)
         nodes = {"a": mk("a"), "b": mk("b"), "sup": mk("sup")}
         layout = {"a_0": ("a", 0), "b_0": ("b", 0), "a_1": ("a", 1), "sup_0": ("sup", 2)}    # non-uniform generations: {a, b}, {a}, {sup}
+        if cfg.get("uniform"):
+            layout = {"a_0": ("a", 0), "b_0": ("b", 0), "b_1": ("b", 1), "a_1": ("a", 1), "sup_0": ("sup", 2)}
+            ex.lib.ns["jax.numpy"].entries["stack"] = lambda ex_, args, axis=0: _Stk(list(args))
         fslots = {s: Rec("SlotVertex", dict(seq=None, ts_start=None, ts_end=None, windows={}, run=NdShape((E, P)), kind=k, generation=g), module=BASE, frozen=True) for s, (k, g) in layout.items()}
         timings = Rec("Timings", dict(slots=fslots), module=BASE, frozen=True)
         eslots = {s: Rec("SlotVertex", dict(seq=Arr.fresh(f"te.{s}.seq", INT, P), ts_start=Arr.fresh(f"te.{s}.ts_start", REAL, P), ts_end=Arr.fresh(f"te.{s}.ts_end", REAL, P), windows={},
@@ -485,6 +525,25 @@ class RunS(Unit):
         ex.summaries["_update_inputs"] = update_inputs
         run_S = ctx.call(args=[nodes, timings, None, "sup_0"])
         out = ex.call(run_S, [gs0], {})
+        if cfg.get("uniform"):
+            # scan: generation g is handed, under the key of each kind's FIRST slot, the timings of that kind's g-th slot
+            ok = len(gen_calls) == 2 and all(set(tg) == {"a_0", "b_0"} for _, tg in gen_calls)
+            ctx.ensure("C07 uniform generations: one scan iteration per generation, in order, keyed by each kind's first slot", z3.BoolVal(ok))
+            if not ok or len(upd_calls) != 1:
+                ctx.ensure("the supervisor's inputs are updated exactly once", z3.BoolVal(len(upd_calls) == 1))
+                return
+            ctx.ensure("C07/C09 each generation runs on the previous generation's result (state is threaded)", z3.BoolVal(gen_calls[1][0].f["state"]["a"].eq(z3.Const("g1.a.state", Leaf))))
+            for g, (gs_in, tg) in enumerate(gen_calls):
+                for kind in ("a", "b"):
+                    t, es = tg[f"{kind}_0"], eslots[f"{kind}_{g}"]
+                    ctx.ensure(f"C07/C06 scan iteration {g} hands kind {kind} the timings of its slot in generation {g} (seq, times, run mask of the clipped current step)",
+                               z3.And(toz(t.f["seq"]) == z3.Select(es.f["seq"].a, cl), toz(t.f["ts_start"]) == z3.Select(es.f["ts_start"].a, cl), toz(t.f["ts_end"]) == z3.Select(es.f["ts_end"].a, cl),
+                                      toz(t.f["run"]) == z3.Select(es.f["run"].a, cl), z3.BoolVal(t.f["kind"] == kind)))
+            ug, ut = upd_calls[0]
+            ctx.ensure("C07 the supervisor's inputs are updated last, from the state after the last generation, with the supervisor slot's timings of this step",
+                       z3.And(z3.BoolVal(ug.f["state"]["a"].eq(z3.Const("g2.a.state", Leaf))), toz(ut.f["seq"]) == seqsup))
+            ctx.ensure("C09 step counter: clipped into [0, max_step - 1], then + 1", toz(out.f["step"]) == cl + 1)
+            return
         ctx.ensure("C07 generations are executed in index order, one call per generation (supervisor generation excluded)",
                    z3.BoolVal(len(gen_calls) == 2 and set(gen_calls[0][1]) == {"a_0", "b_0"} and set(gen_calls[1][1]) == {"a_1"}))
         if len(gen_calls) != 2 or len(upd_calls) != 1:
